@@ -250,6 +250,13 @@ def case(root, g, ops, tool, sel, state_kind):
                     with open(dp, "w") as f:
                         f.write("%s: %s\n" % (key(e), " ".join(e['exp'][:1] + list(e.get('hidden', [])))))
                     labels.add('stray_depfile_of_deps_statement')
+        badrsp = False
+        if state_kind == 'dirty_straydf' and any(e.get('rsp') is not None for e in sim.cmd_edges()):
+            # ... and one statement cannot be started at all (its response file lives in a directory nothing creates): a run
+            # that gives up half-way must still leave the tree alone
+            [e for e in sim.cmd_edges() if e.get('rsp') is not None][0]['rspdir'] = 'nodir/'
+            badrsp = True
+            labels.add('statement_that_cannot_be_started')
         open(sim.path("build.ninja"), "w").write(graphs.real_manifest(sim.g, sim.vtool))
         if any(e.get('dd') for e in sim.g['edges']) and state_kind == 'fresh':
             return None, labels      # "graphs without pending dyndep files"
@@ -270,6 +277,8 @@ def case(root, g, ops, tool, sel, state_kind):
             return dict(kind="`ninja %s` changed files: %s" % (" ".join(args[:3]), diff[:4]), detail=detail), labels
         if before['log'] != after['log'] or before['deps'] != after['deps']:
             return dict(kind="`ninja %s` changed the meaning of the build log or deps log" % " ".join(args[:3]), detail=detail), labels
+        if badrsp:
+            return None, labels     # listing and follow-up build are not judged: both the dry and the real run stop at that statement
         out = p.stdout.decode('utf-8', 'replace')
         pred = sim.model.plan(sim.g, sim.files, targets) if state_kind != 'fresh' else None
         prod = producer_map(sim.g)
